@@ -81,7 +81,7 @@ chk('C10', 'model_checking',
     'Nudge.tla judges raw route R and displayed route D of every connector of a scene: D keeps R\'s first and last point, has no more segments, still visits every checkpoint; interior segments of two '
     'connectors without a common endpoint are not collinear-overlapping when the channel between the nearest immovable things (buffered obstacle sides, first/last segments) has room; parallel interior '
     'segments are coincident or at least d/10 apart. Scenes: corridor family (width 0..40 x 2..4 connectors x option/distance combinations) and seeded random scenes with checkpoints.',
-    'Known findings F13 (option moves endpoints/checkpoints), F25 (nudging assertion), F26 (checkpoint excursion dropped from the displayed route). Channel rule conservative: room for k+1 spacings.',
+    'Known findings F13 (option moves endpoints/checkpoints), F11/F25/F34 (nudging assertions; F11 also kills the process), F26 (checkpoint excursion dropped), F35 (shared path ending at one connector\'s endpoint with nudgeSharedPathsWithCommonEndPoint off). Channel = common free interval of the whole sharing segments, room for k+1 spacings; segments carrying a checkpoint count as immovable. The reduced nudging distance is not observable: distances below d/10 are reported as observations only (DESIGN 10).',
     'TLA+ declarative nudging specification; record validation of raw/displayed route pairs', '4/C10')
 
 chk('C15', 'model_checking',
@@ -101,8 +101,8 @@ chk('C11', 'model_checking',
 chk('C12', 'model_checking',
     'Hyperedge.tla builds the abstract graph (junction nodes, one leaf per non-junction connector end, an edge per connector) from the projection recorded after registerHyperedgeForRerouting + processTransaction '
     'and after a follow-up transaction, and requires: one tree, leaves exactly the terminals the hyperedge was built with, no junction leaf, both ends of every connector attached, routes joining the positions of '
-    'the attached objects, reported new/deleted lists consistent with the live objects. Scenarios are TLC-enumerated: every set of 3..4 pin terminals of three shapes x junction position x improvement options x follow-up.',
-    'Orthogonal routing only (hyperedge rerouting is orthogonal). F12 and F28 are known findings.',
+    'the attached objects, reported new/deleted lists consistent with the live objects. Every snapshot after a processTransaction() is judged (the improver runs whether or not the hyperedge is registered). Scenarios are TLC-enumerated over two geometries: every set of 3..4 pin terminals of three shapes, and every set of 4..5 terminals around a junction that has shapes straight above and below it and two or three further along one line (shared paths, degree 4..5), x junction position x improvement options x follow-up.',
+    'Orthogonal routing only (hyperedge rerouting is orthogonal). F12, F28 and F29 are known findings.',
     'TLA+ declarative tree/terminal specification; TLC-enumerated scenarios replayed; record validation', '4/C12')
 
 chk('C18', 'model_checking',
@@ -114,9 +114,12 @@ chk('C18', 'model_checking',
 chk('C19', 'model_checking',
     'Peel.tla: peeling as a nondeterministic process (strip any node of degree one); TLC shows confluence -- every maximal run ends in the 2-core -- for every simple connected graph on 5 (quick) / 6 (thorough) '
     'nodes and every stripping order, enumerates those graphs for replay, and judges the decomposition the library returns (core = that unique 2-core; trees acyclic, connected, sharing only their roots with the '
-    'core; every edge in exactly one part), connected components (partition of nodes and edges) and symmetric tree layouts (no two nodes on one point) for those and seeded random graphs up to 60 nodes.',
-    'peel() only on connected graphs (the statement). Planarisation clause: see Planar stage / not_applicable note in DESIGN.',
-    'TLA+ confluence model of peeling; TLC-enumerated graphs replayed; record validation', '4/C19')
+    'core; every edge in exactly one part), connected components (partition of nodes and edges) and symmetric tree layouts (no two nodes on one point) for those and seeded random graphs up to 60 nodes. '
+    'Planar.tla states what OrthoPlanariser::planarise() must return for an orthogonally routed graph: original nodes present and in place, every edge an axis-parallel segment between two nodes, no two edges '
+    'meeting except in a common end node, every original edge still a chain through new nodes only, and the set of unit steps covered by the planar edges equal to that covered by the routes; TLC enumerates '
+    'the routed graphs of a 3x3 grid (straight and L routes) for replay and judges those and seeded random routed graphs (<=40 nodes, straight/L/Z routes, crossings and overlapping stretches).',
+    'peel() only on connected graphs (the statement). The planariser is fed grid routes directly (not LeaflessOrthoRouter output); routes stay clear of third nodes. Faces (faces.cpp) are not checked.',
+    'TLA+ confluence model of peeling + declarative planarity specification; TLC-enumerated graphs replayed; record validation', '4/C19')
 
 chk('C07', 'model_checking',
     'Compound.tla gives each compound constraint type its documented meaning over rectangle centres on the 1e-4 lattice (separation, alignment with offsets, boundary as "a separating line exists", '
